@@ -372,14 +372,16 @@ Qed.
 (* ------------------------------------------------------------------ ValidDeleteQuota *)
 Lemma delete_code_facts s pods q : delete_code s pods q = 0 ->
   q_name q <> ROOT /\ (exists xi, find (q_name q) (infos s) = Some xi)
-  /\ find (q_name q) (hier s) = Some [] /\ existsb (fun p => fst p =? q_name q) pods = false.
+  /\ find (q_name q) (hier s) = Some [] /\ existsb (fun p => fst p =? q_name q) pods = false
+  /\ has_pods pods (q_name q) (ann_ns q) = false.
 Proof.
   unfold delete_code.
   destruct ((q_name q =? SYSTEM) || (q_name q =? ROOT) || (q_name q =? DEFAULTQ)) eqn:E; [discriminate|].
   destruct (find (q_name q) (infos s)) as [xi|]; [|discriminate].
   destruct (find (q_name q) (hier s)) as [cs|]; [|discriminate].
   destruct cs; cbn [nonempty]; [|discriminate].
-  destruct (existsb _ pods); [discriminate|]. intros _.
+  destruct (existsb _ pods); [discriminate|].
+  destruct (has_pods pods (q_name q) (ann_ns q)); [discriminate|]. intros _.
   apply orb_false_iff in E. destruct E as [E _]. apply orb_false_iff in E. destruct E as [_ E].
   apply Z.eqb_neq in E. repeat split; eauto.
 Qed.
